@@ -19,10 +19,13 @@ def invitations_part(ob, facts, failures, coverage, tier, seed):
     for c in cases:
         stale = set()                             # (client, g): record left behind by the listed mechanism store-limit-sync-failure; the rest of the history is still judged
         ev_nid, prev_view = {}, {}                # event -> (group, nostr group id after that commit); client -> view before this call
+        rot_tok = {}
         wg, first_ok, writer = {}, set(), {}      # w -> group; (client, w) stored; (client, g) -> the invitation whose process_welcome wrote the record last (None: somebody else did since)
         for k, (op, out) in enumerate(zip(c["ops"], c["impl"])):
             t = op.split()
             res, view = I.split(out)
+            if t[0] == "rotate" and res.startswith("ok") and I.kv(res, "nid"):
+                rot_tok[t[3]] = I.kv(res, "nid")      # rotation token -> the view's number of that nostr group id
             if t[0] in ("group", "invite", "forge") and res.startswith("ok"):
                 g = int(I.kv(res, "g")) if t[0] == "group" else int(t[2])
                 for w in (I.kv(res, "w") or "-").split(","):
@@ -58,6 +61,15 @@ def invitations_part(ob, facts, failures, coverage, tier, seed):
                 if t[0] == "deliver" and res == "unprocessable" and ev_nid.get(int(t[2]), (None, None))[0] == g and any(
                         g2 != g and "norecord" not in p2 and (I.gfield(p2, "I") or "").split("!")[0] == ev_nid[int(t[2])][1] for g2, p2 in before_groups.items()):
                     sig = "store-limit-sync-failure"
+                # … and the COMMITTER's side of the same mechanism (the finding names merge_pending_commit): the client's own rotation
+                # of g onto an id another of ITS records carries — update_group_data stages, merge_pending_commit merges, the store
+                # refuses the synced record, the call errs.  Only that: the op is this client's own rotate / rotonto of g, it failed,
+                # and the target id (known from an earlier successful rotation to the same token, or the named group's id) is carried
+                # by another record of this client in the view before the call.
+                if t[0] in ("rotate", "rotonto") and not res.startswith("ok") and int(t[2]) == g:
+                    target = rot_tok.get(t[3]) if t[0] == "rotate" else (I.gfield(before_groups.get(int(t[3]), ""), "I") or "").split("!")[0]
+                    if target and any(g2 != g and "norecord" not in p2 and (I.gfield(p2, "I") or "").split("!")[0] == target for g2, p2 in before_groups.items()):
+                        sig = "store-limit-sync-failure"
                 if sum(1 for f in failures if f["signature"] == sig) < 3:
                     failures.append({"kind": "oracle", "signature": sig,
                                      "what": f"{c['id']} step {k} `{op}`: group {g} is Active with record epoch {hit.group(2)} while its MLS state is at epoch {hit.group(3)}",
